@@ -1,4 +1,5 @@
 import Uds.Lemmas.Safe
+import Uds.Props.C03
 /-
   C04 — any received bytes give a result or a documented exception, never a crash / hang.
   For every response interpreter and every client-side check: for *all* byte strings `d` the model either returns or
@@ -828,5 +829,185 @@ theorem dtcClient_safe (c : DtcCfg) (q : DtcReqCtx) (d : Bytes) (hv : DtcCfgVali
 example : DtcCfgValid { ext := .int 2 } := ⟨by decide, by unfold extValid checkExtSize; rfl⟩
 example : ioClient { entries := [(0x1234, { codecLen := some 1 })] } 0x1234 none true [0x12] = .error .invalid := by decide
 example : ioClient { entries := [(0x1234, { codecLen := some 1 })] } 0x1234 (some 1) true [0x12, 0x34] = .error .invalid := by decide
+
+/-! ### call level: whole frames, any schedule -/
+
+/-- whatever frames arrive and whenever: the wait loop raises only timeout / negative / invalid / unexpected -/
+theorem waitLoop_documented (dl : Option Nat) (ps : Nat) (cb : Bool) (rid : Nat) (spr : Bool) (now single : Nat) (star : Bool)
+    (arr : List Frame) (e : PyErr) (r : Option Response) (k : Option TimeoutKind)
+    (h : (waitLoop dl ps cb rid spr now single star arr).outcome = .raised e r k) : e.documented = true := by
+  induction arr generalizing now single star with
+  | nil =>
+    rw [waitLoop] at h
+    simp only [] at h
+    split at h <;> first | (cases h; rfl) | cases h
+  | cons f rest ih =>
+    rw [waitLoop] at h
+    simp only [] at h
+    split at h
+    · have hna := Uds.Props.C05.never_assert rid f.payload
+      unfold Uds.Props.C05.classify at hna
+      split at h
+      all_goals first
+        | (cases h; rfl)
+        | (exfalso; exact hna ‹_›)
+        | (split at h <;> first | (cases h; rfl) | cases h)
+        | exact ih _ _ _ h
+    · split at h <;> first | (cases h; rfl) | cases h
+
+theorem packB_some {n : Nat} (h : n < 256) : ∃ b, packB n = .ok b := by
+  unfold packB; simp [h, pure, Except.pure]
+
+/-- a request of the shape the simple builders produce has a payload, with and without the suppress bit -/
+theorem payload_ok (req : Request) (s : Service) (hs : req.service = some s) (hsid : s.sid < 256) (hspr : req.spr = false)
+    (hsf : s.useSubfn = true → ∃ sf, req.subfunction = some sf ∧ sf < 128) :
+    (∃ p, req.getPayload none = .ok p) ∧ (s.useSubfn = true → ∃ p, req.getPayload (some true) = .ok p) := by
+  obtain ⟨a, ha⟩ := packB_some hsid
+  cases hu : s.useSubfn with
+  | false =>
+    refine ⟨?_, fun h => by cases h⟩
+    simp [Request.getPayload, hs, hu, hspr, ha, bind, Except.bind, pure, Except.pure]
+  | true =>
+    obtain ⟨sf, hsf1, hsf2⟩ := hsf hu
+    obtain ⟨b, hb⟩ := packB_some (show sf < 256 by omega)
+    have h7 : setBit7 sf < 256 := by
+      unfold setBit7
+      exact Nat.or_lt_two_pow (n := 8) (by omega) (by decide)
+    obtain ⟨c, hc⟩ := packB_some h7
+    refine ⟨?_, fun _ => ?_⟩
+    · simp [Request.getPayload, hs, hu, hspr, hsf1, ha, hb, bind, Except.bind, pure, Except.pure]
+    · simp [Request.getPayload, hs, hu, hsf1, ha, hc, bind, Except.bind, pure, Except.pure]
+
+/-- `send_request` on such a request: whatever arrives, only documented outcomes are raised -/
+theorem send_documented (cfg : SendCfg) (st : ClientState) (req : Request) (timeout : Option Nat) (arr : List Frame) (s : Service)
+    (hs : req.service = some s) (hsid : s.sid < 256) (hspr : req.spr = false)
+    (hsf : s.useSubfn = true → ∃ sf, req.subfunction = some sf ∧ sf < 128)
+    (e : PyErr) (r : Option Response) (k : Option TimeoutKind)
+    (h : (sendRequest cfg st req timeout arr).outcome = .raised e r k) : e.documented = true := by
+  obtain ⟨⟨p0, hp0⟩, hp1⟩ := payload_ok req s hs hsid hspr hsf
+  unfold sendRequest at h
+  simp only [hs] at h
+  by_cases hu : (st.spr.enabled && s.useSubfn) = true
+  · obtain ⟨p1, hp1⟩ := hp1 (by simp at hu; exact hu.2)
+    simp only [hu, if_true, hp1] at h
+    split at h
+    · cases h
+    · exact waitLoop_documented _ _ _ _ _ _ _ _ _ _ _ _ h
+  · have hu' : (st.spr.enabled && s.useSubfn) = false := by simpa using hu
+    simp only [hu', Bool.false_eq_true, if_false, hp0] at h
+    split at h
+    · cases h
+    · exact waitLoop_documented _ _ _ _ _ _ _ _ _ _ _ _ h
+
+theorem echo1_safe (d : Bytes) : Safe (echo1 d) := by
+  unfold echo1
+  by_cases h : d.length < 1
+  · rw [if_pos h]; exact Safe.throw _ rfl
+  · rw [if_neg h]; exact Safe.bind (Safe.idx (by omega)) fun _ _ => Safe.pure _
+
+theorem Safe.ite_throw_bind {α β : Type} {c : Prop} [Decidable c] {e : PyErr} {f : α → Py β} {k : Py β} (he : e.documented = true) (hk : Safe k) :
+    Safe (if c then ((throw e : Py α) >>= f) else k) := by
+  by_cases h : c
+  · rw [if_pos h]; intro e' h'; simp [bind, Except.bind, throw, throwThe, MonadExceptOf.throw] at h'; subst h'; exact he
+  · rw [if_neg h]; exact hk
+
+theorem echoPost_safe (t : Int) (d : Bytes) : Safe (echoPost t d) := by
+  unfold echoPost
+  exact Safe.bind (echo1_safe d) fun _ _ => Safe.ite_throw_bind (e := .unexpected) rfl (Safe.pure _)
+
+theorem transferDataPost_safe (t : Int) (d : Bytes) : Safe (transferDataPost t d) := by
+  unfold transferDataPost
+  exact Safe.bind (echo1_safe d) fun _ _ => Safe.ite_throw_bind (e := .unexpected) rfl (Safe.pure _)
+
+theorem ecuResetPost_safe (t : Int) (d : Bytes) : Safe (ecuResetPost t d) := by
+  unfold ecuResetPost
+  refine Safe.bind (echo1_safe d) fun e _ => ?_
+  by_cases h4 : (e == 4) = true
+  · rw [if_pos h4]
+    refine Safe.bind ?_ fun _ _ => Safe.ite_throw_bind (e := .unexpected) rfl (Safe.pure _)
+    by_cases h2 : d.length < 2
+    · rw [if_pos h2]; exact Safe.throw _ rfl
+    · rw [if_neg h2]; exact Safe.bind (Safe.idx (by omega)) fun _ _ => Safe.pure _
+  · rw [if_neg h4]
+    exact Safe.bind (Safe.pure _) fun _ _ => Safe.ite_throw_bind (e := .unexpected) rfl (Safe.pure _)
+
+theorem saPost_safe (m : SaMode) (l : Int) (d : Bytes) (hl : 1 ≤ l ∧ l ≤ 0x7E) : Safe (saPost m l d) := by
+  obtain ⟨n, hn⟩ := normalizeLevel_safe m l hl
+  unfold saPost
+  simp only []
+  by_cases h : d.length < (if (m == SaMode.requestSeed) = true then 2 else 1)
+  · rw [if_pos h]; intro e' h'; simp [bind, Except.bind, throw, throwThe, MonadExceptOf.throw] at h'; subst h'; rfl
+  · rw [if_neg h]
+    have : 0 < d.length := by split at h <;> omega
+    refine Safe.bind (Safe.idx this) fun _ _ => ?_
+    rw [hn]
+    exact Safe.bind (Safe.ok _) fun _ _ => Safe.ite_throw_bind (e := .unexpected) rfl (Safe.pure _)
+
+theorem routineControlPost_safe (rid ct : Int) (d : Bytes) : Safe (routineControlPost rid ct d) := by
+  unfold routineControlPost
+  simp only []
+  by_cases h : d.length < 3
+  · rw [if_pos h]; intro e' h'; simp [bind, Except.bind, throw, throwThe, MonadExceptOf.throw] at h'; subst h'; rfl
+  · rw [if_neg h]
+    exact Safe.bind (Safe.idx (by omega)) fun _ _ => Safe.ite_throw_bind (e := .unexpected) rfl (Safe.ite_throw_bind (e := .unexpected) rfl (Safe.pure _))
+
+/-- the checks a client method runs on the reply data, for in-domain arguments and one of the three editions -/
+theorem post_safe (std : Nat) (e : Entry) (d : Bytes) (hstd : std > 2006 → std ≥ 2013)
+    (hlevel : ∀ l x, (e = .requestSeed l x ∨ e = .sendKey l x) → 1 ≤ l ∧ l ≤ 0x7E) : Safe (e.post std d) := by
+  cases e with
+  | changeSession n =>
+    simp only [Entry.post]
+    refine Safe.bind (dsc_safe std d) fun sd hsd => Safe.ite_throw_bind (e := .unexpected) rfl ?_
+    by_cases h6 : std > 2006
+    · rw [if_pos h6]
+      have h13 := hstd h6
+      unfold dscInterpret at hsd
+      simp only [bind_ok] at hsd
+      obtain ⟨x, _, hx⟩ := hsd
+      rw [if_pos h13] at hx
+      split at hx
+      · simp at hx
+      · simp only [pure_ok] at hx; subst hx; exact Safe.pure _
+    · rw [if_neg h6]; exact Safe.pure _
+  | ecuReset t => simp only [Entry.post]; exact Safe.bind (ecuResetPost_safe t d) fun _ _ => Safe.pure _
+  | requestSeed l x => simp only [Entry.post]; exact Safe.bind (saPost_safe _ l d (hlevel l x (Or.inl rfl))) fun _ _ => Safe.pure _
+  | sendKey l x => simp only [Entry.post]; exact Safe.bind (saPost_safe _ l d (hlevel l x (Or.inr rfl))) fun _ _ => Safe.pure _
+  | testerPresent => simp only [Entry.post]; exact Safe.bind (echoPost_safe _ d) fun _ _ => Safe.pure _
+  | commControl a b c => simp only [Entry.post]; exact Safe.bind (echoPost_safe _ d) fun _ _ => Safe.pure _
+  | accessTiming a b => simp only [Entry.post]; exact Safe.bind (echoPost_safe _ d) fun _ _ => Safe.pure _
+  | controlDtc a b => simp only [Entry.post]; exact Safe.bind (echoPost_safe _ d) fun _ _ => Safe.pure _
+  | linkControl a b => simp only [Entry.post]; exact Safe.bind (echoPost_safe _ d) fun _ _ => Safe.pure _
+  | routineControl rid ct x => simp only [Entry.post]; exact Safe.bind (routineControlPost_safe _ _ d) fun _ _ => Safe.pure _
+  | transferData q x => simp only [Entry.post]; exact Safe.bind (transferDataPost_safe _ d) fun _ _ => Safe.pure _
+  | transferExit x => simp only [Entry.post]; exact Safe.pure _
+  | clearDtc a b => simp only [Entry.post]; exact Safe.pure _
+
+/-- **call level** (the 13 simple entry points): whatever frames the connection delivers — any bytes, any number, any timing —
+    the client method returns, or raises a documented outcome; the only other way to fail is the refusal of the arguments by the
+    request builder, before anything is sent -/
+theorem call_documented (cfg : CallCfg) (st : ClientState) (e : Entry) (arr : List Frame) (hstd : cfg.std > 2006 → cfg.std ≥ 2013)
+    (hlevel : ∀ l x, (e = .requestSeed l x ∨ e = .sendKey l x) → 1 ≤ l ∧ l ≤ 0x7E) :
+    match (callInner cfg st e arr).inner with
+    | .ret _ => True
+    | .exc err _ => err.documented = true ∨ (e.makeRequest cfg.std = .error err ∧ (callInner cfg st e arr).log = []) := by
+  unfold callInner
+  cases hm : e.makeRequest cfg.std with
+  | error err => simp
+  | ok req =>
+    simp only []
+    obtain ⟨hspr, s, hs, hsid, hus, hsf⟩ := Uds.Props.C03.req_shape cfg.std e req hm
+    cases ho : (sendRequest cfg.send st req none arr).outcome with
+    | none => simp
+    | raised err r k =>
+      simp only []
+      exact Or.inl (send_documented cfg.send st req none arr s hs hsid hspr (fun h => hsf (by rw [← hus]; exact h)) err r k ho)
+    | resp resp =>
+      simp only []
+      cases hp : e.post cfg.std resp.data with
+      | error err => simp only []; exact Or.inl (post_safe cfg.std e resp.data hstd hlevel err hp)
+      | ok t => simp
+
+example : (callInner { send := ⟨none, 1000, 5000, false⟩ } {} .testerPresent [⟨3, [0x7F, 0x3E]⟩]).inner =
+    .exc .invalid (some (Response.fromPayload [0x7F, 0x3E])) := by decide
 
 end Uds.Props.C04
